@@ -8,4 +8,10 @@ if printf '%s\n' "$out" | grep -q "^VIOLATION\|^BROKEN\|^UNDECIDED" || [ "$n" !=
   printf '%s\n' "$out" | grep "^VIOL\|^BROKEN\|^UNDEC" | cut -c1-300
   echo "NOT CLEAN ($n/18)"; exit 1
 fi
+# the reference table of unexported identifiers (rename.go) must describe
+# /repo's HEAD: regenerate after every legitimate change of /repo
+t=$(mktemp); ./bin/clusterlint -gen-reference $t >/dev/null 2>&1
+if ! cmp -s $t clusterlint/reference_idents.json; then rm -f $t; echo "NOT CLEAN: clusterlint/reference_idents.json is stale (run: bin/clusterlint -gen-reference clusterlint/reference_idents.json && ./setup.sh)"; exit 1; fi
+rm -f $t
+if printf '%s\n' "$out" | grep -q "^NOTE: .* renamed"; then echo "NOT CLEAN: renames detected on the unchanged tree"; exit 1; fi
 echo "clean: 18/18"
